@@ -848,6 +848,26 @@ theorem normBound_len_sub2 (n d : Nat) :
   · split <;> omega
   · split <;> omega
 
+theorem getVar_setVar_same (vs : List (Name × V ω)) (x : Name) (v : V ω) : getVar (setVar vs x v) x = some v := by
+  induction vs with
+  | nil => simp [setVar, getVar]
+  | cons p ps ih =>
+    obtain ⟨n, w⟩ := p
+    by_cases h : n = x
+    · simp [setVar, getVar, h]
+    · simp [setVar, getVar, h, ih]
+
+theorem getVar_setVar_ne (vs : List (Name × V ω)) (x y : Name) (v : V ω) (h : x ≠ y) :
+    getVar (setVar vs x v) y = getVar vs y := by
+  induction vs with
+  | nil => simp [setVar, getVar, h]
+  | cons p ps ih =>
+    obtain ⟨n, w⟩ := p
+    by_cases hn : n = x
+    · subst hn
+      simp [setVar, getVar, h]
+    · simp only [setVar, hn, if_false, getVar, ih]
+
 theorem execB_nil (H : Host ω σ) (fuel : Nat) (st : St ω σ) : execB H fuel [] st = (.ok .next, st) := by rw [execB]
 theorem execB_cons (H : Host ω σ) (fuel : Nat) (s : S) (ss : List S) (st : St ω σ) :
     execB H fuel (s :: ss) st = (match execS H fuel s st with
@@ -872,12 +892,12 @@ theorem execB_step (H : Host ω σ) (fuel : Nat) (s : S) (ss : List S) (st st' :
 attribute [pyeval] execS_expr execS_assign execS_assignT execS_aug execS_setAttr execS_ret execS_raise execS_if
   execS_for execS_while execS_try execS_continue execS_break execS_pass execB_nil execB_one
   Bool.not_true Bool.not_false Int.cast_ofNat_Int
-  evalE evalEs evalCond setVar getVar bindT binOp binInt asInt? cmpOp cmpOrd pyEq memTuple isNone truthy indexOp sliceOp boundOf pySlice_nonneg pySlice_tail2 pySlice_to_tail2
+  evalE evalEs evalCond setVar getVar getVar_setVar_same getVar_setVar_ne bindT binOp binInt asInt? cmpOp cmpOrd pyEq memTuple isNone truthy indexOp sliceOp boundOf pySlice_nonneg pySlice_tail2 pySlice_to_tail2
   builtin builtinMethod iterOf excCls kwArg normBound_nat normBound_nonneg normBound_none normBound_len_sub2
   fLen fBytes fInt fIntFromBytes mHex kByteorder kSigned sLittle sBig
   List.zip_cons_cons List.zip_nil_right List.zip_nil_left List.contains_cons List.contains_nil
   xEOFError xTypeError xValueError xKeyError xStopIteration xUBXParseError xUBXMessageError xUBXTypeError xUBXStreamError
-  or_false false_or or_self or_true true_or and_true true_and and_false false_and raiseX
+  or_false false_or or_self or_true true_or and_true true_and and_false false_and raiseX ne_eq not_false_eq_true not_true_eq_false
 
 /-- evaluate the interpreter on the statement at the head of the goal -/
 macro "pysimp" : tactic => `(tactic| simp only [pyeval, Nat.reduceEqDiff, ↓reduceIte, Int.reduceLE, Int.reduceLT, Int.reduceToNat, Int.reduceNeg, Int.reduceSub, Int.reduceAdd])
